@@ -351,6 +351,7 @@ class TheJoker:
                 init_batch_size=init_batch_size,
                 growth_factor=growth_factor,
                 n_linear_samples=n_linear_samples,
+                max_prior_samples=max_prior_samples,
             )
 
         else:
